@@ -298,6 +298,33 @@ fn faults_for(mode: Mode, tier: Tier, seed: u64, img: &ImageInfo) -> Vec<Fault> 
                 });
             }
         }
+        // crafted damage (C04 only): a byte of a pack's two header blocks altered and the block's
+        // CRC-32C recomputed, so that only the pack's global hash can notice
+        if mode == Mode::C04 {
+            for span in &img.spans[fi] {
+                if span.kind == b'C' {
+                    continue;
+                }
+                for block in [span.start, span.start + 64] {
+                    // harness self-check: the stored CRC must be what our own CRC computes
+                    let stored = u32::from_be_bytes(file[(block + 60) as usize..(block + 64) as usize].try_into().unwrap());
+                    if simcore::fault::crc32c_jubako(&file[block as usize..(block + 60) as usize]) != stored {
+                        simcore::harness_error("the harness's CRC-32C does not reproduce a stored header CRC");
+                    }
+                    for pos in block..block + 60 {
+                        for mask in [0x01u8, 0xFF] {
+                            out.push(Fault::FlipFix {
+                                file: fi,
+                                pos,
+                                mask,
+                                block_start: block,
+                                block_len: 60,
+                            });
+                        }
+                    }
+                }
+            }
+        }
         // paired damage: a byte of the checked range together with the kind byte of the pack's
         // check block (blake3 -> "no check"): the check block's own CRC must catch the second one
         if mode != Mode::C06 {
@@ -611,10 +638,27 @@ pub fn child_main(args: &Args) -> ! {
         let fault = &faults[i as usize];
         let mut files = pristine_bytes.clone();
         let fired = fault.apply(&mut files);
+        // C04: handles opened on the pristine files, checked once, and asked again after the bytes
+        // changed underneath (same inode): an altered byte must not be answered from a stale buffer
+        let mut held: Vec<(String, jubako::reader::ContainerPack)> = vec![];
+        if mode == Mode::C04 {
+            write_files(&case_dir, &names, &pristine_bytes);
+            for &fi in &fault.files() {
+                if let Ok(cp) = jubako::tools::open_pack(case_dir.join(&names[fi])) {
+                    let _ = cp.check();
+                    held.push((names[fi].clone(), cp));
+                }
+            }
+        }
         write_files(&case_dir, &names, &files);
         let payload = std::panic::catch_unwind(std::panic::AssertUnwindSafe(|| match mode {
             Mode::C04 => {
-                let obs = observe_checks(&entry, &case_dir, &names, &spans, &fault.files());
+                let mut obs = observe_checks(&entry, &case_dir, &names, &spans, &fault.files());
+                let mut stale = serde_json::Map::new();
+                for (n, cp) in &held {
+                    stale.insert(n.clone(), json!(check_str(cp.check())));
+                }
+                obs["held_handles"] = Value::Object(stale);
                 json!({"fired": fired, "obs": obs})
             }
             Mode::C05 | Mode::C06 => {
@@ -657,6 +701,7 @@ fn structure_at(img: &ImageInfo, fault: &Fault) -> String {
     // which structure the (first) damaged position falls into, for signatures and evidence
     let (fi, pos) = match fault {
         Fault::Flip { file, pos, .. }
+        | Fault::FlipFix { file, pos, .. }
         | Fault::Zero { file, pos, .. }
         | Fault::Overwrite { file, pos, .. } => (*file, *pos),
         Fault::Truncate { file, len } => (*file, *len),
@@ -837,6 +882,11 @@ fn c04_violation(rec: &Value, exempt: bool) -> Option<String> {
         if v == "true" {
             let _ = k;
             trues.push("ContainerPack::check(file)".to_string());
+        }
+    }
+    for (_k, v) in obs["held_handles"].as_object().into_iter().flatten() {
+        if v == "true" {
+            trues.push("ContainerPack::check(handle opened before the alteration)".to_string());
         }
     }
     // only the pack that contains the damage is required to fail its own check
@@ -1121,7 +1171,7 @@ pub fn parent_main(args: &Args, mode: Mode) -> ! {
 /// For C04: is the damage confined to exempt manifest bytes, and which pack (file#span) holds it.
 fn c04_attribution(img: &ImageInfo, fault: &Fault) -> (bool, String) {
     let (fi, lo, hi) = match fault {
-        Fault::Flip { file, pos, .. } => (*file, *pos, *pos + 1),
+        Fault::Flip { file, pos, .. } | Fault::FlipFix { file, pos, .. } => (*file, *pos, *pos + 1),
         Fault::Zero { file, pos, len } | Fault::Overwrite { file, pos, len, .. } => {
             (*file, *pos, *pos + *len)
         }
